@@ -12,8 +12,8 @@ import (
 	"errors"
 	"fmt"
 	"io"
-	"math/rand/v2"
 	"log/slog"
+	"math/rand/v2"
 	"net"
 	"net/netip"
 	"strings"
@@ -24,6 +24,7 @@ import (
 
 	"github.com/AdguardTeam/AdGuardDNS/internal/dnsserver"
 	"github.com/AdguardTeam/AdGuardDNS/internal/dnsserver/forward"
+	"github.com/AdguardTeam/AdGuardDNS/verif/dnsid"
 	"github.com/AdguardTeam/AdGuardDNS/verif/kernel"
 	"github.com/AdguardTeam/AdGuardDNS/verif/simnet"
 	"github.com/miekg/dns"
@@ -364,6 +365,10 @@ func (w *rw) WriteMsg(_ context.Context, _, resp *dns.Msg) error {
 
 func run(s *kernel.Sim, prop, cfg string) {
 	t := s.T
+	// The IDs of the health-check probes: the same in a replay as in the
+	// run, and never two alike (a duplicate reply left in a pooled socket
+	// with the ID of a later probe would be a legitimate answer to it).
+	dnsid.Pin(0)
 	n := simnet.New(s)
 	n.Faults = simnet.Faults{}
 
@@ -443,7 +448,7 @@ func run(s *kernel.Sim, prop, cfg string) {
 	// judgeRefresh runs one health-check round through call and advances the
 	// reference state machine; it returns false after a violation.
 	judgeRefresh := func(label string, desc []string, now time.Time, call func() error) bool {
-			// ---- health-check round ----
+		// ---- health-check round ----
 		marks := map[*upstream]int{}
 		for _, m := range mains {
 			marks[m] = m.received(hcDomain)
@@ -514,7 +519,6 @@ func run(s *kernel.Sim, prop, cfg string) {
 				s.Fault("probe-failed-" + classOf(m.getState()))
 			}
 		}
-
 
 		return true
 	}
